@@ -203,18 +203,22 @@ def make_fn(name: str, spec: Dict[str, Any] | None) -> Named:
 def _scribble_in_place(x):
     if isinstance(x, dict):
         for kk in list(x):
-            if isinstance(x[kk], (dict, list)):
+            if isinstance(x[kk], (dict, list, tuple)):
                 _scribble_in_place(x[kk])
             else:
                 x[kk] = "scribbled"
         x["scribbled-key"] = 1
     elif isinstance(x, list):
         for i in range(len(x)):
-            if isinstance(x[i], (dict, list)):
+            if isinstance(x[i], (dict, list, tuple)):
                 _scribble_in_place(x[i])
             else:
                 x[i] = "scribbled"
         x.append("scribbled")
+    elif isinstance(x, tuple):
+        # a tuple is only shallowly immutable: the containers inside it can be edited
+        for y in x:
+            _scribble_in_place(y)
 
 
 def _safe_eq(x, y):
@@ -282,6 +286,13 @@ def enc(x):
                 "k": [[n, enc(v)] for n, v in sorted(x.k.items())]}
     if x is Missing:
         return {"$": "missing"}
+    if type(type(x)).__name__ == "_DatasetClassMeta":
+        # an instance of a dataset class: the values of its members in `dir()` order (the model's view of a dataset
+        # class is the tuple of its members, see pdl.Prog.dsclass)
+        from labrea.types import Evaluatable as _Ev
+        cls = type(x)
+        return {"$": "tuple", "v": [enc(getattr(x, k)) for k in dir(cls)
+                                    if not k.startswith("__") and isinstance(getattr(cls, k, None), _Ev)]}
     if hasattr(x, "__next__") or type(x).__name__ in ("generator", "map", "filter", "zip"):
         return [enc(y) for y in x]
     if callable(x):
